@@ -190,6 +190,7 @@ def run(ctx):
     # ---- the definition block keeps every definition it was given, in order, duplicates of a label included
     rule_definitions_kept(ctx, rep)
     rule_definitions_rendered(ctx, rep, cfgs)
+    rule_code_span_rows(ctx, rep)
     # ---- fragments are assembled into lines without touching their text (no limit: the source's own line flow)
     rule_assembly(ctx, rep, cfgs)
     # ---- interpretation of every render method, under every option valuation
@@ -275,6 +276,64 @@ def run(ctx):
                      loc(model.unit_of(cfg.render_map[cname]), cfg.render_map[cname].node))
     rep.floor('R-SPELL-USED', n, 33)
     rep.assume('spelling table: class -> attributes kept for the round trip, confirmed by reading the constructors')
+
+
+# Code span content (CommonMark 0.30, 6.1): line endings become spaces; then, if the content both begins and ends with
+# a space but does not consist of spaces only, one space is removed from each end. One source per class of that rule.
+CODE_SPAN_ROWS = ['`foo`', '` foo `', '`  foo  `', '` `', '`  `', '`\nfoo\n`', '`foo\nbar`', '` a`', '`a `', '``\nfoo \n``',
+                  '`` ` ``', '` `` `', '`\n`', '`a  b`', '` \nfoo\n `']
+
+
+def _code_span_spec(inner):
+    flat = inner.replace('\n', ' ')
+    if flat.strip(' ') and flat.startswith(' ') and flat.endswith(' '):
+        return flat, flat[1:-1]
+    return flat, flat
+
+
+def rule_code_span_rows(ctx, rep):
+    """The retained spelling of a code span agrees with its content: InlineCode, constructed (by the interpreter) from
+    the match of its own pattern on one source of every class of the stripping rule, holds the content the specification
+    defines, and delimiter + padding + content + padding + delimiter is the source with line endings as spaces - the
+    text the Markdown renderer writes then parses to the same content."""
+    model = ctx.model
+    rule = 'R-CODE-SPAN-ROWS'
+    rep.rule(rule, 'InlineCode keeps delimiter, padding and content such that content is the specified one and the three spell the source')
+    ic = model.cls('span_token.InlineCode')
+    bad = []
+    n = 0
+    for text in CODE_SPAN_ROWS:
+        rep.instance(rule)
+        it = Interp(model, loop_bound=8)
+        it.reset_run(Oracle())
+        try:
+            pat = it.class_attr(ic, 'pattern')
+            m = it.call(it.getattr(pat, 'search'), [text], {})
+            if m is None:
+                raise AnalysisError('R-CODE-SPAN-ROWS: InlineCode.pattern does not match %r' % text)
+            tok = it.construct(ic, [m], {})
+            kids = tok.attrs.get('_children', tok.attrs.get('children'))
+            content = kids[0].attrs.get('content') if isinstance(kids, (list, tuple)) and len(kids) == 1 and isinstance(kids[0], Obj) else None
+            got = (tok.attrs.get('delimiter'), tok.attrs.get('padding'), content)
+        except Raised as e:
+            got = ('raises %s' % e.exc.kind, None, None)
+        d = text[:len(text) - len(text.lstrip('`'))]
+        inner = text[len(d):len(text) - len(d)]
+        flat, want = _code_span_spec(inner)
+        n += 1
+        ok = all(isinstance(x, str) for x in got) and got[0] == d and got[2] == want and got[1] + got[2] + got[1] == flat
+        rep.obligation(rule, ok, {'source': text, 'delimiter, padding, content': got, 'specified content': want})
+        if not ok:
+            bad.append((text, got, want, flat))
+    if bad:
+        text, got, want, flat = bad[0]
+        init = ic.lookup('__init__')[1]
+        rep.find(rule, init.short, 'row:%s' % text.replace('\n', '|'),
+                 'for the code span %r InlineCode keeps delimiter %r, padding %r and content %r; the content CommonMark defines is '
+                 '%r and padding + content + padding must spell %r: the span the Markdown renderer writes parses to a different '
+                 'content (%d of %d rows differ)' % (text, got[0], got[1], got[2], want, flat, len(bad), len(CODE_SPAN_ROWS)),
+                 loc(model.unit_of(init), init.node), witness=text)
+    rep.floor(rule, n, 12)
 
 
 def rule_assembly(ctx, rep, cfgs):
